@@ -15,6 +15,7 @@ import (
 	"free5gclib/nas/nasMessage"
 	"free5gclib/nas/nasTestpacket"
 	"free5gclib/nas/nasType"
+	"free5gclib/nas/security"
 	"free5gclib/openapi/models"
 	"tglib"
 	"verifharness/internal/ev"
@@ -108,6 +109,62 @@ func record(seed int64, tier, out string) {
 				"ulAfter": int(ue.ULCount.Get()), "dlAfter": int(ue.DLCount.Get())})
 			id++
 		}
+	}
+}
+
+// counts records the counter type security.Count itself: for each overflow value of the sweep and each sequence number of the
+// row, Set / Get / SQN / Overflow / AddOne / SetSQN / SetOverflow starting from an arbitrary earlier value.
+func counts(seed int64, tier, out string) {
+	r := ev.Rng(seed, "counts")
+	w := ev.Create(out)
+	defer w.Close()
+	edge := []int{0, 1, 2, 127, 128, 129, 253, 254, 255}
+	var all []int
+	for i := 0; i < 256; i++ {
+		all = append(all, i)
+	}
+	var ovfs []int
+	full := map[int]bool{}
+	if tier == "thorough" {
+		for o := 0; o < 65536; o++ {
+			ovfs = append(ovfs, o)
+			if o%256 == 255 || o%256 == 0 {
+				full[o] = true
+			}
+		}
+	} else {
+		for _, o := range []int{0, 1, 2, 127, 128, 254, 255, 256, 257, 511, 512, 32767, 32768, 65279, 65280, 65534, 65535} {
+			ovfs = append(ovfs, o)
+		}
+		for i := 0; i < 400; i++ {
+			ovfs = append(ovfs, r.Intn(65536))
+		}
+		full[0], full[255], full[65535], full[ovfs[20]] = true, true, true, true
+	}
+	for id, o := range ovfs {
+		sq := edge
+		if full[o] {
+			sq = all
+		}
+		prior := r.Intn(1 << 24)
+		x, y := r.Intn(256), r.Intn(65536)
+		var get, sqnOut, ovfOut, next, afterSqn, afterOvf []int
+		for _, s := range sq {
+			var c security.Count
+			c.Set(uint16(prior>>8), uint8(prior))
+			c.Set(uint16(o), uint8(s))
+			get = append(get, int(c.Get()))
+			sqnOut = append(sqnOut, int(c.SQN()))
+			ovfOut = append(ovfOut, int(c.Overflow()))
+			c.AddOne()
+			next = append(next, int(c.Get()))
+			c.SetSQN(uint8(x))
+			afterSqn = append(afterSqn, int(c.Get()))
+			c.SetOverflow(uint16(y))
+			afterOvf = append(afterOvf, int(c.Get()))
+		}
+		w.Emit(ev.M{"ev": "Count", "id": id, "hist": -1, "ovf": o, "prior": prior, "sqns": sq, "x": x, "y": y, "get": get, "sqnOut": sqnOut,
+			"ovfOut": ovfOut, "next": next, "afterSqn": afterSqn, "afterOvf": afterOvf})
 	}
 }
 
@@ -231,7 +288,12 @@ func main() {
 	tier := flag.String("tier", "quick", "")
 	out := flag.String("out", "nassec.ndjson", "")
 	cases := flag.String("replay", "", "TLC-generated downlink cases to replay")
+	cnt := flag.Bool("counts", false, "record the counter type instead of histories")
 	flag.Parse()
+	if *cnt {
+		counts(*seed, *tier, *out)
+		return
+	}
 	if *cases != "" {
 		replay(*cases, *out)
 		return
